@@ -121,7 +121,10 @@ func (w *worker) explore(name string, params interface{}, opts vrt.Options, body
 		return r
 	}
 	if opts.KeepGoing == nil {
-		opts.KeepGoing = func(f *vrt.Failure) bool { return f.Kind == "oracle" && strings.HasPrefix(f.Sig, "known:") }
+		all := os.Getenv("VERIF_NOSIG") != "" // diagnostic mode: collect one witness per distinct oracle
+		opts.KeepGoing = func(f *vrt.Failure) bool {
+			return f.Kind == "oracle" && (all || strings.HasPrefix(f.Sig, "known:"))
+		}
 	}
 	r := vrt.Explore(name, opts, body)
 	w.out.Scenarios = append(w.out.Scenarios, &scenarioResult{Name: name, Params: params, Result: r})
@@ -131,6 +134,11 @@ func (w *worker) explore(name string, params interface{}, opts vrt.Options, body
 func (w *worker) doReplay(name string, opts vrt.Options, body func()) {
 	var first *vrt.Exec
 	for i := 0; i < 5; i++ {
+		if i == 0 && os.Getenv("VERIF_TRACE") != "" {
+			vrt.Trace = func(l string) { fmt.Println("TRACE", l) }
+		} else {
+			vrt.Trace = nil
+		}
 		x := vrt.RunOnce(opts, w.replay.Choices, body)
 		if first == nil {
 			first = x
